@@ -38,6 +38,47 @@ def check_design(case):
     return None
 
 
+def edited_designs():
+    """designs written in several steps: a port connected, then re-connected to something else (by assignment, call,
+    connect / replace / disconnect+connect) - the design AS WRITTEN is its final state"""
+    import hdl21 as h
+
+    def mk(how, first, second):
+        def b():
+            Stage = h.Module(name="Stage")
+            Stage.inp = h.Input()
+            Stage.out = h.Output()
+            Stage.r = h.R(r=1)(p=Stage.inp, n=Stage.out)
+            m = h.Module(name="Edited")
+            m.vin, m.vout, m.tap, m.bus = h.Input(), h.Output(), h.Output(), h.Signal(width=2)
+            m.s0 = Stage(inp=m.vin)
+            m.s1 = Stage(out=m.tap)
+            m.s2 = Stage(out=m.vout)
+            m.s1.inp = m.s0.out
+            targets = {"ref0": lambda: m.s0.out, "ref1": lambda: m.s1.out, "sig": lambda: m.vin, "bit": lambda: m.bus[1],
+                       "cat": lambda: h.Concat(m.bus[0])}
+            m.s2.inp = targets[first]()
+            new = targets[second]()
+            if how == "setattr":
+                m.s2.inp = new
+            elif how == "call":
+                m.s2(inp=new)
+            elif how == "connect":
+                m.s2.connect("inp", new)
+            elif how == "replace":
+                m.s2.replace("inp", new)
+            else:
+                m.s2.disconnect("inp")
+                m.s2.inp = new
+            return m
+        return b
+    for how in ("setattr", "call", "connect", "replace", "disconnect"):
+        for first in ("ref0", "sig", "bit", "cat"):
+            for second in ("ref1", "sig", "bit", "ref0"):
+                if first != second:
+                    yield (f"edited/{how}/{first}->{second}", mk(how, first, second))
+
+
 def probe_netlister_convention():
     """The assumed contract on the dependency: vlsirtools writes buses MSB first and concat parts in listed order."""
     import io
@@ -103,9 +144,9 @@ def run(ctx):
             ctx.checker_errors.append(f"array rule: only {len(obs)} obligations generated")
         ctx.discharge(obs, c_arrays.KEY + " [per-element loop body]", info)
     ctx.run_bounded(
-        "to_proto-vs-meaning", design_family(ctx.tier, ctx.seed),
+        "to_proto-vs-meaning", __import__("itertools").chain(design_family(ctx.tier, ctx.seed), edited_designs()),
         lambda c: check_design(c),
-        rule=RULE, bound="depth<=3, widths<=4 (8 thorough), <=4 (6) instances per module",
+        rule=RULE + "; plus 60 designs written in several steps (a port re-connected by each of the five operations)", bound="depth<=3, widths<=4 (8 thorough), <=4 (6) instances per module",
         key_of=lambda c: c[0], nontrivial=lambda c: nontrivial(c[0]))
     return INFO
 
@@ -114,6 +155,11 @@ def replay(payload):
     from rtc.designs import designs
     want = (payload.get("input") or {}).get("design")
     if want:
+        for desc, b in edited_designs():
+            if desc == want:
+                r = check_design((desc, b))
+                print("replay:", r)
+                return 1 if r else 0
         for tier in ("quick", "thorough"):
             for desc, b in design_family(tier, 0):
                 if desc == want:
